@@ -421,9 +421,24 @@ class CQueue:
         self.label = label or f'queue{CQueue._n}'
         self.items: collections.deque = collections.deque()
         self.history: List[Tuple[int, Any]] = []      # (seq, item) of every put
+        self.producers: set = set()
 
     def put(self, item, *a, **k) -> None:
-        self.items.append(item)                # left mover: no scheduling point
+        # a put into a queue with ONE producer is a left mover (it only enables
+        # the reader): no scheduling point.  With a second producer the order of
+        # the items depends on who comes first: a put by a thread other than the
+        # queue's first producer is a scheduling point of its own.
+        try:
+            me_ = self.s.me().name
+        except KeyError:
+            me_ = None
+        if me_ is not None:
+            if self.producers and me_ not in self.producers or len(self.producers) > 1:
+                self.producers.add(me_)
+                self.s.yield_point('q.put-shared', self)
+            else:
+                self.producers.add(me_)
+        self.items.append(item)
         self.history.append((self.s.next_seq(), item))
         try:
             # ... except against what the putter does to the log file next
@@ -459,6 +474,8 @@ class FakeTime:
 class Pipe:
     def __init__(self):
         self.buf = bytearray()
+        self.late = bytearray()  # bytes still in transit: they arrive once the reader has
+                                 # taken everything that is there and asks for more
         self.closed = False      # the writing end has been closed
 
 
@@ -524,9 +541,14 @@ class FakeConn:
         return _Reader()
 
     def recv(self, n: int, *a) -> bytes:
+        if not self.rx.buf and self.rx.late:
+            # the next segment of the transport arrives
+            self.rx.buf, self.rx.late = self.rx.late, bytearray()
         if not self.rx.buf and not self.rx.closed:
             t0 = self.s.clock
-            self.s.yield_point('recv', self, lambda: bool(self.rx.buf) or self.rx.closed)
+            self.s.yield_point('recv', self, lambda: bool(self.rx.buf) or bool(self.rx.late) or self.rx.closed)
+            if not self.rx.buf and self.rx.late:
+                self.rx.buf, self.rx.late = self.rx.late, bytearray()
             tmo = getattr(self, 'timeout', None)
             if tmo is not None and self.s.clock - t0 > tmo:
                 # a time-out left on the socket: nothing arrived for that long
@@ -555,7 +577,18 @@ class FakeConn:
         if self.observer is not None:
             self.observer(bytes(data))
         self.sent.append((self.s.next_seq(), bytes(data)))
-        self.tx.buf.extend(data)
+        seg = getattr(self.net, 'segment', None)
+        if self.tx.late:
+            self.tx.late.extend(data)          # behind what is still in transit
+        elif seg is not None and len(data) > 1 and seg.random() < 0.5:
+            # the transport delivers the data in two segments (a stream socket keeps
+            # no message boundaries): cut between CR and LF, or anywhere
+            k = data.rfind(b'\r') + 1 if (b'\r' in data and seg.random() < 0.7) else seg.randrange(1, len(data))
+            k = min(max(k, 1), len(data) - 1)
+            self.tx.buf.extend(data[:k])
+            self.tx.late.extend(data[k:])
+        else:
+            self.tx.buf.extend(data)
         peer = getattr(self, 'peer', None)
         if peer is not None and peer.closed_by_me:
             # the peer has gone: the data is answered with a reset
